@@ -502,7 +502,7 @@ mut('c16-intro-none-when-object', ['C16'], IN,
     note='a leaf object can no longer be introspected')
 
 # ---- C09 ------------------------------------------------------------------
-twin('c09-prefix-connect-never-fires', ['C09'], ['1984e76', '8483bef'], ['C09.D1'], 'pre-fix twin (the later snapshot fix touches the same lines and is reverted too)')
+twin('c09-prefix-connect-never-fires', ['C09'], ['392c9ee', '1984e76', '8483bef'], ['C09.D1'], 'pre-fix twin (the later snapshot fix touches the same lines and is reverted too)')
 twin('c09-prefix-live-iteration', ['C09'], '1984e76', ['C09.D4'], 'pre-fix twin')
 twin('c09-prefix-proxy-unregistered', ['C09'], '7486884', ['C09.D5'], 'pre-fix twin')
 mut('c09-loss-no-timer-cancel', ['C09', 'C08'], CL,
@@ -774,7 +774,7 @@ mut('ok-c09-loss-items-loop', ['C09', 'C08'], CL,
     [("        for d, timeout in pending.values():\n            if timeout:\n                timeout.cancel()\n            d.errback(reason)",
       "        for _serial, entry in pending.items():\n            d, timeout = entry\n            if timeout is not None and timeout:\n                timeout.cancel()\n            d.errback(reason)")], kind='benign')
 mut('ok-c09-established-inline', ['C09'], CL,
-    [("        established = self.busName is not None\n\n        if established:\n            # iterate a copy", "        if self.busName is not None:\n            # iterate a copy"),
+    [("        established = self.busName is not None\n\n        # from here on a new call can get no reply: callRemoteMessage fails it\n        self._lostReason = reason\n\n        if established:\n            # iterate a copy", "        # from here on a new call can get no reply: callRemoteMessage fails it\n        self._lostReason = reason\n\n        if self.busName is not None:\n            # iterate a copy"),
      ("        if established:\n            self.objHandler.connectionLost(reason)", "        if self.busName is not None:\n            self.objHandler.connectionLost(reason)")], kind='benign')
 mut('ok-c09-endpoint-iterator', ['C09'], CL,
     [("    eplist.reverse()\n\n    def try_next_ep(err):\n        if eplist:\n            eplist.pop().connect(f).addErrback(try_next_ep)\n        else:",
@@ -1034,6 +1034,34 @@ mut('ok-c19-signature-over-255-rejected', ['C19', 'C02'], M,
     [("def marshal_signature(ct, var, start_byte, lendian, oobFDs):\n", "def marshal_signature(ct, var, start_byte, lendian, oobFDs):\n    if len(var) > 255:\n        raise MarshallingError('Signature exceeds maximum length of 255')\n")], kind='benign',
     note='an explicit guard with the right bound (struct would raise anyway)')
 
+
+# ---- round 6 (order / repetition / re-entrancy) ------------------------------------
+twin('c09-prefix-call-after-loss', ['C09', 'C08'], '392c9ee', ['C09.D3', 'C08.D2'],
+     'pre-fix twin: a call issued while/after connectionLost ran was registered and never failed')
+mut('c09-loss-recorded-after-callouts', ['C09'], CL,
+    [("        # from here on a new call can get no reply: callRemoteMessage fails it\n        self._lostReason = reason\n\n", ""),
+     ("        if established:\n            self.objHandler.connectionLost(reason)", "        self._lostReason = reason\n        if established:\n            self.objHandler.connectionLost(reason)")],
+    ['C09.D3'], note='the loss is recorded only after the callbacks and errbacks ran')
+mut('c08-lost-call-still-registered', ['C08', 'C09'], CL,
+    [("            if self._lostReason is not None:", "            if self._lostReason is not None and not self.busName:")],
+    ['C08.D2', 'C09.D3'])
+mut('c11-swapped-positional-roles', ['C11'], OB,
+    [("        d = self.conn.introspectRemoteObject(\n            busName,\n            objectPath,", "        d = self.conn.introspectRemoteObject(\n            objectPath,\n            busName,")],
+    ['C11.D1'], note='two arguments swapped at a positional call site')
+mut('ok-c11-keyword-roles', ['C11'], OB,
+    [("        d = self.conn.introspectRemoteObject(\n            busName,\n            objectPath,\n            replaceKnownInterfaces,", "        d = self.conn.introspectRemoteObject(\n            objectPath=objectPath,\n            busName=busName,\n            replaceKnownInterfaces=replaceKnownInterfaces,")],
+    kind='benign')
+mut('c18-lenient-wrapper', ['C18', 'C03'], M,
+    [("def validateBusName(n):", "@_lenient\ndef validateBusName(n):"),
+     ("def validateObjectPath(p):", "def _lenient(validator):\n    def wrapper(n):\n        try:\n            validator(n)\n        except MarshallingError:\n            if not n.startswith(':'):\n                raise\n    return wrapper\n\n\ndef validateObjectPath(p):")],
+    ['C18.DM'], note='a decorator swallows the validator\'s verdict for unique names')
+mut('ok-c08-timeout-pop-tolerant', ['C08'], CL,
+    [("        del self._pendingCalls[serial]\n        d.errback(error.TimeOut('Method call timed out'))",
+      "        self._pendingCalls.pop(serial, None)\n        d.errback(error.TimeOut('Method call timed out'))")], kind='benign')
+mut('c13-remove-after-head-append-form', ['C13', 'C14'], BU,
+    [("                    if caller in queue:\n                        # it was waiting for the name: no second entry\n                        queue.remove(caller)\n                    del queue[0]\n                    queue.insert(0, caller)",
+      "                    del queue[0]\n                    queue.insert(0, caller)\n                    if queue.count(caller) > 1:\n                        queue.remove(caller)")],
+    ['C13.D4', 'C14.D3'], note='the old waiting entry is removed after the head insert: list.remove drops the head')
 
 # ---- the seeded changes of independent sub-agents (seeded/<id>/patch.diff) as break entries:
 # each must make the check of the property it was written against exit 1
